@@ -8,6 +8,7 @@
 From Coq Require Import ZArith List Bool Reals. Import ListNotations.
 From PV Require Import Num NumR model.Geom proofs.LatticeFacts proofs.SiteFacts proofs.OverlapFacts proofs.PackingFacts proofs.LJFacts proofs.RedescribeFacts proofs.LatticeSumFacts proofs.OriginShift.
 From PV Require Import gen.GenFns proofs.SourceFacts.
+From PV Require Import model.Iter proofs.SearchFacts.
 
 Theorem C03_lj_sum_formula :
   forall st : ljstateR, lj_sum NumR rpowi st = (incell_sum st + / 2 * image_sum st)%R.
@@ -129,4 +130,11 @@ Theorem C03_lj_final_is_source :
     (lj_sum NN powi st) = lj_score NN powi st.
 Proof. exact lj_final_is_source. Qed.
 Print Assumptions C03_lj_final_is_source.
+
+
+Theorem C03_lj_score_is_source :
+  forall (NN : Num) (powi : carrier NN -> Z -> carrier NN) (st : ljstate NN), gen_lj_score NN
+    powi st = lj_score NN powi st.
+Proof. exact lj_score_is_source. Qed.
+Print Assumptions C03_lj_score_is_source.
 
